@@ -172,7 +172,7 @@ def install_models(P):
             return 48 <= v.v <= 57
         return mk_bool(z3.And(z3.UGE(v.v, 48), z3.ULE(v.v, 57)))
 
-    @M(r'^<\[u8; \d+\] as Index(?:Mut)?<(?:std::ops::)?(RangeFrom|RangeTo|Range)<usize>>>::index(?:_mut)?$', regex=True)
+    @M(r'^<\[\w+; \w+\] as Index(?:Mut)?<(?:std::ops::)?(RangeFrom|RangeTo|Range)<usize>>>::index(?:_mut)?$', regex=True)
     def _(m, fr, a, mm):
         arr = _load(a[0])
         rng = a[1]
@@ -316,7 +316,7 @@ def install_models(P):
         it[2] = pos + n
         return Enum('Some', [SliceRef(sl.arr, sl.start + pos, n)])
 
-    @M(r'^core::slice::<impl \[T\]>::iter$', regex=True)
+    @M(r'^core::slice::<impl \[\w+\]>::iter$', regex=True)
     def _(m, fr, a, _m):
         return Opaque('iter', [as_slice(a[0]), 0])
 
